@@ -172,10 +172,14 @@ func runC13(c *Ctx) {
 			ow := c.Rng.Intn(3) == 0
 			ts := baseTime.Add(time.Duration(h*100+r) * time.Second)
 			dg := sha512.Sum384(img)
-			err := runEndorse(dir, img, cand, ow, ts)
+			snap := c.Rng.Intn(6) == 0
+			err := runEndorseMode(dir, img, cand, ow, ts, snap)
 			// the model sees the canonical spelling of the candidate (computed here with path.Clean,
 			// independently of the code under test); the direct oracle below works on the disk
-			runToks = append(runToks, fmt.Sprintf("%s:%s:%d:%s", cleanCand(cand), hx(dg[:]), ts.Unix(), b2s(ow)))
+			runToks = append(runToks, fmt.Sprintf("%s:%s:%d:%s:%s", cleanCand(cand), hx(dg[:]), ts.Unix(), b2s(ow), b2s(snap)))
+			if snap {
+				c.Count("hist/snapshot-run")
+			}
 			if cleanCand(cand) != cand {
 				c.Count("hist/unclean-candidate")
 			}
@@ -188,7 +192,7 @@ func runC13(c *Ctx) {
 			}
 			// direct oracle after every run
 			checkStoreInvariant(c, dir, strings.Join(runToks, ";"))
-			if err == nil {
+			if err == nil && !snap {
 				// latest digest maps to the file this run wrote
 				m, _ := readManifest(dir)
 				want := endorseBasename(cleanCand(cand))
@@ -227,6 +231,10 @@ func endorseBasename(cand string) string {
 }
 
 func runEndorse(dir string, img []byte, cand string, overwrite bool, ts time.Time) error {
+	return runEndorseMode(dir, img, cand, overwrite, ts, false)
+}
+
+func runEndorseMode(dir string, img []byte, cand string, overwrite bool, ts time.Time, snapshot bool) error {
 	ctx := keysCtx(quietCtx(overwrite), &Rng{s: 7})
 	ec := &endorse.Context{
 		SevSnp:        &sev.SnpEndorsementRequest{Svn: 1, LaunchVmsas: 1, Product: sgpb.SevProduct_SEV_PRODUCT_MILAN},
@@ -236,6 +244,9 @@ func runEndorse(dir string, img []byte, cand string, overwrite bool, ts time.Tim
 		Timestamp:     ts,
 		VCS:           &localnonvcs.T{Root: dir},
 		OutDir:        "out",
+	}
+	if snapshot {
+		ec.SnapshotDir, ec.ImageName = "snap", "ovmf_x64_csm.fd"
 	}
 	return endorse.VirtualFirmware(endorse.NewContext(ctx, ec))
 }
